@@ -179,10 +179,16 @@ def run_case(spec):
                 best = tv
         if chosen is not None:
             i1, tv, prev = chosen
-            if plan["exact"] or not math.isfinite(prev):
-                real["options"]["feasibility_tol"] = tv
+            ftol = tv if (plan["exact"] or not math.isfinite(prev)) else tv + 0.5 * (prev - tv)
+            if ftol > 1e20:
+                # stated domain, as for targets: thresholds beyond 1e20 are not generated (the solver compares
+                # barrier-clipped values, |v| <= 2^100, so a tolerance of 5e299 cannot tell 1e300 from 9)
+                ftol = tv if tv <= 1e20 else None
+            if ftol is None:
+                chosen = None
+                out.label("feas-tol-beyond-domain")
             else:
-                real["options"]["feasibility_tol"] = tv + 0.5 * (prev - tv)
+                real["options"]["feasibility_tol"] = ftol
         else:
             out.label("no-feas-candidate")
     if plan.get("fixed_target") is not None and not fun_none:
